@@ -828,6 +828,7 @@ class SNIExtension(TLSExtension):
             data
         """
         if p.getRemainingLength() == 0:
+            self.serverNames = None
             return self
 
         self.serverNames = []
